@@ -146,3 +146,5 @@ func replayProgramText(src string) string {
 	fmt.Fprintf(&b, "failed=%v kind=%s err=%s results=(%s)\n", o.Failed, o.ErrKind, o.ErrText, strings.Join(o.Results, ", "))
 	return b.String()
 }
+
+func getenv(k string) string { return os.Getenv(k) }
